@@ -1080,7 +1080,7 @@ pub fn run(cfg: &Cfg, rep: &mut Report) -> PropMeta {
     let exhaustive = !cfg.quick() && cfg.only_case.is_none();
     PropMeta {
         id: "C13", level: "exploration",
-        rule: "universe (enumerated completely in the thorough tier; quick = every list of length <= 2 and a seed-dependent 1/8 of the lists of length 3): schemes {none,bfv,ckks,bgv} x degrees {0,1,2,3,4,6,8,16,1024,2^17,2^18} x coefficient lists {unset, empty, every ordered list with repetition of length 1..3 over {0,2,3,5,13,17,97,193,257,7681,12289,4,15,21,34,85, largest 60-bit prime = 1 mod 2^18, largest 61-bit prime = 1 mod 2^18}} x plain moduli {0,2,3,16,17,34,257,2^58, second largest 60-bit prime = 1 mod 2^18, 2^60+1} x security {none,128,192,256} x expand_mod_chain x use_special_prime flag; builder panics = not constructible (skipped). random: 1..64 moduli of 6..60 bits at N = 2..32768 around/over the security budget with injected duplicates, composites, non-NTT primes, 61-bit and zero moduli, all kinds of plain moduli. secbound: every (N, level) of the security table at max-1/max/max+1 total bits. generators: create/batching for every N = 2..2^17 x every size 2..60, random size lists up to 64 entries, bfv_default and max_bit_count for every N x level. distinct = distinct (scheme, outcome, reason / chain length, flags) classes",
+        rule: "universe (enumerated completely in the thorough tier; quick = every list of length <= 2 and a seed-dependent 1/8 of the lists of length 3): schemes {none,bfv,ckks,bgv} x degrees {0,1,2,3,4,6,8,16,1024,2^17,2^18} x coefficient lists {unset, empty, every ordered list with repetition of length 1..3 over {0,2,3,5,13,17,97,193,257,7681,12289,4,15,21,34,85, largest 60-bit prime = 1 mod 2^18, largest 61-bit prime = 1 mod 2^18}} x plain moduli {0,2,3,16,17,34,257,2^58, second largest 60-bit prime = 1 mod 2^18, 2^60+1} x security {none,128,192,256} x expand_mod_chain x use_special_prime flag; builder panics = not constructible (skipped). random: 1..64 moduli of 6..60 bits at N = 2..32768 around/over the security budget with injected duplicates, composites, non-NTT primes, 61-bit and zero moduli, all kinds of plain moduli. secbound: every (N, level) of the security table at max-1/max/max+1 total bits. generators: create/batching for every N = 2..2^17 x every size 2..60, random size lists up to 64 entries, bfv_default and max_bit_count for every N x level. distinct = distinct (scheme, outcome, reason / chain length, flags) classes. rnsp_wrapper: the RNS-plain wrapper context over 1..4 plain moduli of which none / one at any position / several / all are inadmissible: wrapper verdict, per-component verdicts and plain_modulus() against the independent predicate",
         assumptions: vec![
             "reference security table (27/54/109/218/438/881, 19/37/75/152/305/611, 14/29/58/118/237/476 bits for N = 1024..32768) transcribed by hand from the HomomorphicEncryption.org standard (ternary secret, classical), not read from the library".into(),
             "parameter id layout of DESIGN.md appendix A: SHA-256 (sha2 crate) over little-endian u64 words [scheme, N, q_1..q_k, t]".into(),
